@@ -274,6 +274,11 @@ TEMPLATES = [
     "def show(*a, **k):\n    return (a, sorted(k.items()))\nclass K:\n    n = 3\n    opts = {'z': n}\n    r1 = show(n, k=n)\n    r2 = show(*[n], **opts, j=n + 1)\n    n = 4\n    r3 = show(k=n, **{'y': n})\n    def m(self, n=n):\n        return show(n, k=n, s=self.n)\nL('r', K.r1, K.r2, K.r3, K().m(), K().m(n=0))",
     "g = 'glob'\ndef show(*a, **k):\n    return (a, sorted(k.items()))\ndef outer(h='param'):\n    g = 'outer-local'\n    def inner():\n        global g\n        return show(g, k=g, **{'j': g}), show(h, k=h, *[h])\n    return inner(), show(k=g, **{'j': g})\nL('r', outer())",
     "def show(*a, **k):\n    return (a, sorted(k.items()))\ndef f(n):\n    def bump():\n        nonlocal n\n        n += 1\n        return n\n    return show(n, bump(), n, k=n, j=bump(), i=n, **{'h': n}), [show(e, k=n + e) for e in range(2)], (lambda q=n, **kw: show(q, k=n, **kw))(z=n)\nL('r', f(1))",
+    # an interrupt that is the whole if-branch, in tail position, with an else: exactly one branch runs
+    "def f(c):\n    if c:\n        return\n    else:\n        L('else', c)\ndef g(c):\n    L('pre', c)\n    if c == 1:\n        return\n    elif c == 2:\n        return 'two'\n    else:\n        L('else', c)\n        return 'else'\nL('r', f(1), f(0), g(1), g(2), g(3))",
+    "def f(xs):\n    for x in xs:\n        if x:\n            continue\n        else:\n            L('falsy', x)\n    for x in xs:\n        if x:\n            break\n        else:\n            L('before', x)\n    else:\n        return 'no break'\nL('r', f([0, 1, 0]), f([0, 0]), f([]))",
+    # the returned value is falsy (0, None, '', [], False): the caller gets exactly that object
+    "def f(k):\n    if k == 0:\n        return 0\n    if k == 1:\n        return ''\n    if k == 2:\n        return []\n    if k == 3:\n        return None\n    if k == 4:\n        return False\n    for i in range(3):\n        if i == 1:\n            return 0.0\n    return 'end'\nL('r', [f(k) for k in range(6)])",
     # recursion and closures keep binding
     "def fact(n, acc=1):\n    return acc if n <= 1 else fact(n - 1, acc * n)\nL('r', fact(5), fact(n=3), fact(4, acc=2))",
     "def deco(fn):\n    def w(*a, **k):\n        return fn(*a, **k)\n    return w\nclass K:\n    @deco\n    def m(self, x, /, y=2, *, z=3):\n        return (x, y, z)\n    @staticmethod\n    @deco\n    def s(x=1):\n        return x\n    @classmethod\n    def c(cls, *a, **k):\n        return (cls.__name__, a, sorted(k))\nL('r', K().m(1), K().m(1, 5, z=6), K.s(), K().s(4), K.c(1, q=2), K().c())",
